@@ -53,6 +53,10 @@ def gen_program(rng, cyclic=False, allow=("follow", "single", "dyn", "disc", "fo
             # (the recorded list then holds the key twice, with different flags)
             kinds = {r["kind"] for r in start + dynThen + dynElse if r["k"] == l}
             if l not in used or (kinds and kinds <= {"follow", "single"} and rng.random() < 0.7): disc.append(l)
+        if "disc" in allow and di > 0 and rng.random() < 0.12:
+            # a discovered DERIVED key (reported, not read): it is brought up to date after the task finished
+            dk = rng.choice(DERIVED[:di])
+            if dk not in used and dk not in disc: disc.append(dk)
         proj = [r["k"] for r in start if r["kind"] == "in" and rng.random() < 0.8]
         proj += [r["k"] for r in dynThen + dynElse if r["kind"] == "in" and r["k"] not in proj]
         prog[me] = dict(leaf=False, start=start, dynOn=dynOn, dynThen=dynThen, dynElse=dynElse, disc=disc,
